@@ -27,6 +27,7 @@ type codecCase struct {
 	JSON  []int `json:"json"`
 	Text  []int `json:"text"`
 	Alt   []int `json:"alt"`
+	Alt3  []int `json:"alt3"`
 	Probe []int `json:"probe"`
 }
 
@@ -125,6 +126,9 @@ func checkC14(rc *Run) error {
 		}
 		if len(c.Alt) > 0 {
 			mk("D2", dargs, runesOf(c.Alt))
+		}
+		if len(c.Alt3) > 0 {
+			mk("D4", dargs, runesOf(c.Alt3))
 		}
 	}
 	dir := filepath.Join(rc.Out, "run")
@@ -261,7 +265,7 @@ func probeClass(r *codecRun) string {
 }
 
 // codecTag names the input classes of the known deviations (decided from the INPUT, so another failure on other inputs is not hidden)
-var reTomlSubOfArray = regexp.MustCompile(`\]\]\n\[[^\[]`)
+var reTomlArrayHeader = regexp.MustCompile(`\[\[([^\[\]]+)\]\]`)
 
 func baseOf(f string) string {
 	if b, ok := baseFmt[f]; ok {
@@ -292,8 +296,10 @@ func codecTag(r *codecRun) string {
 			return "key-separator-not-escaped"
 		}
 	case "toml":
-		if reTomlSubOfArray.MatchString(r.stdin) {
-			return "subtable-of-table-array-element"
+		for _, m := range reTomlArrayHeader.FindAllStringSubmatch(r.stdin, -1) {
+			if strings.Contains(r.stdin, "\n["+m[1]+".") {
+				return "subtable-of-table-array-element"
+			}
 		}
 	case "lua":
 		if r.dir == "R" && strings.Contains(strings.Join(r.args, " "), "from_json") && strings.ContainsRune(probe, 0x7f) {
